@@ -70,23 +70,32 @@ def run(ck, ctx):
                   sc, func, g.show(v, 2))
         # ---- R05.3 coverage
         pr = Pred(I)
-        kinds = coverage_rules(ck, "R05.3", I, pr, arr, T.betas, "beta_rad", func, "exit probability")
+        def point_angle(store):
+            v = store.args[2]
+            if v.op == "Call" and len(v.args) > 1 and v.args[1].op in ("Tuple", "List") and len(v.args[1].args) == 2:
+                return v.args[1].args[1]
+            return None
+        kinds = coverage_rules(ck, "R05.3", I, pr, arr, T.betas, "beta_rad", func, "exit probability",
+                               angle_operand=point_angle)
         # low angles: evaluated at the table's first beta
         if "low" in kinds:
-            sc, bound, v = kinds["low"]
+            sc, bound, v, rf = kinds["low"]
             pts = v.args[1] if v.op == "Call" and len(v.args) > 1 else None
-            ok = pts is not None and pts.op in ("Tuple", "List") and len(pts.args) == 2 and \
-                g.same(pts.args[1], bound)
+            ok = pts is not None and pts.op in ("Tuple", "List") and len(pts.args) == 2
+            if ok:
+                from .c04 import angle_value_in_region
+                got = angle_value_in_region(pr, pts.args[1], rf, T.betas)
+                ok = g.same(pts.args[1], bound) or (isinstance(got, tuple) and g.same(got[1], bound))
             ck.ob("R05.3", "angles below the table take the value at the table's minimum angle", ok, sc or arr, func,
                   g.show(pts, 3) if pts is not None else g.show(v, 2))
         if "high" in kinds:
-            sc, bound, v = kinds["high"]
+            sc, bound, v, _rf = kinds["high"]
             okh = is_ext_call(v, "numpy.log10")
             ck.ob("R05.1", "angles above the table get log10(floor)", okh, sc or arr, func, g.show(v, 2))
             if okh:
                 floors.append((sc or arr, v.args[1]))
         if "valid" in kinds:
-            sc, _b, v = kinds["valid"]
+            sc, _b, v, _rf = kinds["valid"]
             ck.ob("R05.1", "angles inside the table get the interpolator's value", v.op == "Call" and
                   v.args[0] in ctors, sc or arr, func, g.show(v, 2))
         # ---- R05.5 point order
